@@ -9,7 +9,7 @@ from vf.ref import rfc4511
 sl = av.sl
 ST = sl.SessionState
 
-HISTORIES = ["fresh", "binding", "opened-ops", "opened-idle"]
+HISTORIES = ["fresh", "binding", "opened-ops", "opened-idle", "after-refused-calls"]
 
 
 def _drain(s):
@@ -29,6 +29,16 @@ def client_with(history: str):
         i = c.extended_request("1.2.3")
         _drain(c)
         c.receive(rfc4511.encode(("ExtendedResponse", i, ((0, "", "", None), None, None), ())))
+    elif history == "after-refused-calls":
+        # calls refused while BINDING must leave nothing behind; then the bind completes
+        i = c.bind_simple("cn=a", "pw")
+        for fn in (lambda: c.search_request("dc=x"), lambda: c.extended_request("1.2.3"), lambda: c.search_request("dc=y", scope=17)):
+            try:
+                fn()
+            except (sl.LDAPError, ValueError):
+                pass
+        _drain(c)
+        c.receive(rfc4511.encode(("BindResponse", i, ((0, "", "", None), None), ())))
     _drain(c)
     return c, ip
 
@@ -47,6 +57,15 @@ def server_with(history: str):
     elif history == "opened-idle":
         s.receive(rfc4511.encode(("ExtendedRequest", 1, ("1.2.3", None), ())))
         s.extended_response(1)
+        _drain(s)
+    elif history == "after-refused-calls":
+        s.receive(rfc4511.encode(("SearchRequest", 1, ("dc=x", 2, 0, 0, 0, False, ("present", "objectClass"), ()), ())))
+        for fn in (lambda: s.search_result_done(2), lambda: s.extended_response(3), lambda: s.bind_response(7), lambda: s.search_result_entry(2, "cn=x", [])):
+            try:
+                fn()
+            except sl.LDAPError:
+                pass
+        s.search_result_done(1)
         _drain(s)
     return s, ip
 
